@@ -41,4 +41,32 @@ for bits in (1024, 2048):
         except Exception:
             ok = False
         comp.case((bits, "garbage", blob[:4]), ok, witness={"bits": bits, "blob_head": blob[:8].hex()})
-emit([comp])
+# histories: the same blob decrypted again, with the matching key, with a different key, after the first result was edited
+hist = Component("repeated-decryption", "encrypt once, then: decrypt with the matching key twice (equal results, edits of the first result do not "
+                 "leak into the second), decrypt with a non-matching key of the same size (ValueError), decrypt with the matching key again")
+k1024 = RSA.import_key(open(os.path.join(os.path.dirname(__file__), "..", "contracts", "spec", "test_rsa_1024.pem"), "rb").read())
+other = RSA.generate(1024, randfunc=lambda n: bytes(rng.randrange(256) for _ in range(n)))
+for i in range(6):
+    m = BeaconMetadata()
+    m.magic = 0xBEEF
+    m.aes_rand = bytes(rng.randrange(256) for _ in range(16))
+    m.bid = 2 * rng.randrange(2 ** 30)
+    m.info = b"host\tuser\tproc%d" % i
+    blob = encrypt_metadata(m, k1024.publickey())
+    try:
+        a = decrypt_metadata(blob, k1024)
+        a_bid = a.bid
+        a.bid = 1
+        a.info = b"edited"
+        try:
+            decrypt_metadata(blob, other)
+            wrong_rejected = False
+        except ValueError:
+            wrong_rejected = True
+        b = decrypt_metadata(blob, k1024)
+        ok = wrong_rejected and a_bid == m.bid and b.bid == m.bid and bytes(b.info) == bytes(m.info) and bytes(b.aes_rand) == bytes(m.aes_rand)
+        w = {"wrong_key_rejected": wrong_rejected, "second_bid": b.bid, "expected_bid": m.bid, "second_info": repr(bytes(b.info))}
+    except Exception as ex:   # noqa
+        ok, w = False, {"error": repr(ex)}
+    hist.case(i, ok, witness=w)
+emit([comp, hist])
